@@ -52,6 +52,11 @@ class C19(Check):
             for b0 in range(0xc0, 0x100):        # every lead byte with boundary second bytes
                 for b1 in (0x7f, 0x80, 0x8f, 0x90, 0x9f, 0xa0, 0xbf, 0xc0):
                     cases.append(("text %d %s" % (flag, hexs(bytes([b0, b1, 0x80, 0x80, 0x41]))), {"flag": flag}))
+        # the UTF-8 bit among other general-purpose bits a foreign producer may set (reserved 12-15, compression options 1-2)
+        for other in (0x1000, 0x2000, 0x4000, 0x8000, 0xf000, 0x0002, 0x0004, 0x0006, 0xf006):
+            for flag in (0, 1):
+                for raw in ("caf\u00e9".encode("utf-8"), b"caf\x82", b"plain", "\u2603/\u00fc".encode("utf-8"), b"\x80", b"\xe2\x82"):
+                    cases.append(("text %d %s" % (flag | (other << 1), hexs(raw)), {"flag": flag}))
         n = 6000 if self.tier == "quick" else 200000
         for i in range(n):
             ln = r.choice([1, 2, 3, 4, 5, 8, 16, 40, 200]) if i % 400 else r.choice([4096, 65535])
@@ -103,7 +108,7 @@ class C19(Check):
                 return "names read back by the flagged encoding %r differ from the names written %r" % (got, meta["names"])
             return None
         if parts[0] == "text":
-            flag, raw = int(parts[1]), bytes.fromhex(parts[2][1:])
+            flag, raw = int(parts[1]) & 1, bytes.fromhex(parts[2][1:])
             m = re.match(r"\[x([0-9a-f]*) x([0-9a-f]*)\]", out)
             if not m:
                 return "unexpected output"
